@@ -46,6 +46,9 @@ func c02Body(tag string, kind string, withIndex bool, action string) *Block {
 		b.Stmts = append(b.Stmts, &If{C: Bin("==", V("$"), N("2")), Then: &Next{}}, Pr(S(tag+"-after")))
 	case "exit-if":
 		b.Stmts = append(b.Stmts, &If{C: Bin("==", V("$"), N("3")), Then: &Exit{}}, Pr(S(tag+"-after")))
+	case "dollar-assign":
+		// BEGIN / END rules each start with $ null: a store into $ there is gone when the next rule starts
+		b.Stmts = append(b.Stmts, asg(V("$"), S(tag+"-was-here")), Pr(S(tag+"-now"), V("$")))
 	case "store":
 		// a store through $: visible to later rules of this pass, not to the pass of another selector or value
 		b.Stmts = append(b.Stmts, &If{C: &IsExpr{X: V("$"), T: "object"}, Then: Blk(asg(Mem(V("$"), "mark"), Bin("+", Mem(V("$"), "mark"), N("1")))),
@@ -187,6 +190,8 @@ func c02Random(rng *rand.Rand) (*c02Config, string, bool) {
 		case 4, 5:
 			if k != "BEGIN" && k != "END" {
 				action = "store"
+			} else {
+				action = "dollar-assign"
 			}
 		}
 		if k == "pattern" {
@@ -230,6 +235,17 @@ func c02Random(rng *rand.Rand) (*c02Config, string, bool) {
 			r.Body.Stmts = append(r.Body.Stmts, asg(V("$"), []Expr{Mem(V("$"), "a"), Arr(V("$"), N("1")), Idx(V("$"), N("0"))}[rng.IntN(3)]))
 		}
 		cfg.rules = append(cfg.rules, r)
+	}
+	if allArr && rng.IntN(4) == 0 {
+		// the last pattern rule moves its own $index: the next element (and the next root) start from their position again
+		for i := len(cfg.rules) - 1; i >= 0; i-- {
+			if r := cfg.rules[i]; r.Kind == "pattern" {
+				if r.Body != nil {
+					r.Body.Stmts = append([]Stmt{asg(V("$index"), Bin("+", V("$index"), N("100"))), Pr(S("moved-index"), V("$index"))}, r.Body.Stmts...)
+				}
+				break
+			}
+		}
 	}
 	key := fmt.Sprintf("R:%d rules/%s/sel%d", nrules, shape, nsel)
 	return cfg, key, len(active) >= 2 && npat >= 1
